@@ -37,13 +37,30 @@ let dump_db (s : st) =
   "db:" ^ String.concat ";" (List.map (fun (k, v) ->
     hex_of_n k ^ "=" ^ String.concat "+" (List.map (fun (h, sg) -> hex_of_n h ^ "." ^ hex_of_n sg) v)) ents)
 
+(* third round: the stored SCALE bytes of every slot, recomputed with the Gallina encoder
+   (Codec.stored_value) and hashed like the harness does (FNV-1a 64); the Gallina decoder must give
+   the records back (C27_stored_round_trip, re-checked here on the extracted code) *)
+let fnv64 (l : byte list) : string =
+  let h = ref 0xcbf29ce484222325L in
+  List.iter (fun b -> h := Int64.mul (Int64.logxor !h (Int64.of_int (int_of_byte b))) 0x100000001b3L) l;
+  Printf.sprintf "%Lx" !h
+let dump_raw (s : st) =
+  let ents = List.sort (fun (a, _) (b, _) -> if a = b then 0 else if n_lt a b then -1 else 1) s.recs in
+  if ents = [] then "raw:-" else
+  "raw:" ^ String.concat ";" (List.map (fun (k, v) ->
+    let bytes = stored_value v in
+    (match dec_stored bytes with
+     | Some rs when rs = List.map mk_record v -> ()
+     | _ -> fail "C27: the extracted decoder does not invert the encoder on slot %s" (hex_of_n k));
+    hex_of_n k ^ "=" ^ fnv64 bytes) ents)
+
 let check inp obs =
   match split_ws inp with
   | "seq" :: cs ->
     let cs = List.map parse_chk cs in
     let (sf, outs) = run init cs in
     let model = String.concat " " (List.map str_out outs
-      @ ["start:" ^ (match sf.start with None -> "-" | Some f -> hex_of_n f); dump_db sf]) in
+      @ ["start:" ^ (match sf.start with None -> "-" | Some f -> hex_of_n f); dump_db sf; dump_raw sf]) in
     let otoks = split_ws obs in
     let n = List.length cs in
     (* property predicates on the implementation's answers *)
@@ -51,7 +68,7 @@ let check inp obs =
     let tags = Hashtbl.create 8 in
     let tag t = Hashtbl.replace tags t () in
     let nontrivial = ref false in
-    if List.length otoks <> n + 2 then why := ["shape"] else begin
+    if List.length otoks <> n + 3 then why := ["shape"] else begin
       let seq = sequential cs in
       (* window specification on the implementation's answers, every history *)
       let sa = spec_answers cs in
@@ -107,7 +124,7 @@ let coq inp obs =
     let cs = List.map parse_chk cs in
     let n = List.length cs in
     let otoks = split_ws obs in
-    if List.length otoks <> n + 2 then None else begin
+    if List.length otoks <> n + 3 then None else begin
       let outs = List.filteri (fun i _ -> i < n) otoks in
       let st = List.nth otoks n and db = List.nth otoks (n + 1) in
       let strip p s = let l = String.length p in
